@@ -132,6 +132,7 @@ Mark(g, c)     == Sym("mark", "", "", g, c, 0)       \* a unit without a naming 
 Slot           == Sym("slot", "opt", "", "", "", 0)  \* optional separator, no whitespace token expected
 SlotW          == Sym("slot", "optW", "", "", "", 0) \* optional pure whitespace
 First(a)       == Sym("slot", "first", a, "", "", 0) \* between the at-keyword and a first prelude token a
+SlotC          == Sym("slot", "C", "", "", "", 0)    \* a comment (inline declaration lists: between / before declarations)
 
 P(p, cu, cf, rhs) == [p |-> p, cu |-> cu, cf |-> cf, rhs |-> rhs]
 EndOK(s) == EndBias = 0 \/ s.bu = 0 \/ RandomElement(1..EndBias) = 1      \* deep random derivations: do not stop early
@@ -253,6 +254,13 @@ Prods(h, s) ==
            {P("dr.last", 0, 0, <<>>),
             P("dr.semicolon", 0, 0, <<Skip("semi"), after, NT("DeclList", a, d)>>),
             P("dr.semicolons", 0, 1, <<Skip("semi"), Skip("semi"), after, NT("DeclList", a, d)>>)}
+           \* inline lists: a comment after the `;` (before the next declaration, before an empty declaration, at the end).
+           \* Whether such a comment is a unit of its own is left open (the trace specification accepts a Comment unit or none);
+           \* what is not open is that the list stays well-formed: its declarations are reported and no error is.
+           \cup (IF a = "inline" THEN
+                 {P("dr.semicolon-comment", 0, 1, <<Skip("semi"), SlotC, SlotW, NT("DeclList", a, d)>>),
+                  P("dr.semicolon-comment-semicolon", 0, 1, <<Skip("semi"), SlotC, Skip("semi"), SlotW, NT("DeclList", a, d)>>)}
+                ELSE {})
       [] n = "Decl" ->
            {P("declaration", 0, 0, <<Begin("prop", "Declaration", a), Slot, Skip("colon"), Slot, NT("Comp", "any", 0), NT("VRest", "", 0),
                                      NT("Imp", "", 0), Slot>>)}
@@ -322,6 +330,7 @@ Norm(s) ==           \* carry out every step that involves no choice
       [] h.k = "mark" -> Norm([r EXCEPT !.pv = "", !.units = Append(@, NewUnit(h.b, h.c, "", 0))])
       [] h.k = "slot" ->
            IF h.n = "first" /\ NeedsSep("at", h.a) THEN Norm(PutWs(r))
+           ELSE IF h.n = "C" THEN Norm(PutSep(r, "C"))
            ELSE IF s.bw = 0 THEN Norm(r) ELSE s
       [] h.k = "nt" /\ h.n \in Single -> Norm(Expand(s, CHOOSE p \in Prods(h, s) : TRUE))
       [] OTHER -> s
